@@ -62,7 +62,7 @@ pub fn smoke(which: &str, shard: usize, nshards: usize) -> i32 {
         let mut params = gen_params(&mut r, &spec, planner, false);
         params.goal_bias = 0.3;
         let ops = vec![Op::Solve(1), Op::Setup(0), Op::Construct, Op::Solve(12), Op::SetPd(1), Op::Solve(3), Op::Setup(1), Op::Solve(3)];
-        let h = History { problems: vec![p1, p2], params, prm_samples: 8, ops, uniform_fail_at: None, starts_override: None, script: None };
+        let h = History { problems: vec![p1, p2], params, prm_samples: 8, ops, uniform_fail_at: None, starts_override: None, script: None, prm_build_override: None };
         with_kit!(spec, K, kit => {
             if let Ok((_, recs)) = run_history::<K>(&kit, &h, true, 100_000) {
                 ran += recs.len();
